@@ -460,6 +460,67 @@ def dml_obligations(rep):
             rep.proved(oid, 'pysym', f'where={"kept" if where else "absent"}' + (f', sets {setcols}' if setcols else ''), function=FN2, clause=clause)
 
 
+def ddl_limit_obligations(rep):
+    """CREATE TABLE keeps every column constraint it understands (NULL / NOT NULL / unspecified, PRIMARY KEY, DEFAULT); LIMIT / OFFSET keep their
+    values, including 0 (finite case analysis on the SQLAlchemy objects the real renderer builds)"""
+    FN3 = f'{RENDER}:SqlalchemyRender.prepare_create_table'
+    for nl, pk, df in itertools.product(('', 'NULL', 'NOT NULL'), (False, True), (False, True)):
+        col = 'a int' + (' PRIMARY KEY' if pk else '') + (" DEFAULT '1'" if df else '') + (f' {nl}' if nl else '')
+        sql = f'CREATE TABLE z ({col}, b int)'
+        oid = f'C06.ddl.column.{nl.replace(" ", "_") or "unspecified"}.pk{int(pk)}.default{int(df)}'
+        clause = 'the rendered column has the written nullability (NOT NULL kept, NULL kept, nothing invented), key flag and default'
+        try:
+            stmt, q = _get_query(sql)
+            c = list(stmt.element.columns)[0]
+        except Exception as e:
+            if isinstance(e, (NotImplementedError, SQLAlchemyError)):
+                rep.proved(oid, 'pysym', f'refused ({type(e).__name__}) rather than mistranslated', function=FN3, clause=clause)
+            else:
+                from mindsdb_sql.exceptions import ParsingException
+                if isinstance(e, ParsingException):
+                    continue            # the dialect does not accept this spelling: outside the property
+                rep.failed(oid, 'pysym', f'{type(e).__name__}: {e}'[:150], function=FN3, clause=clause, replay=replay_exec_dml(sql))
+            continue
+        src = q.columns[0]
+        problems = []
+        want_nullable = {None: None, True: True, False: False}[src.nullable]
+        # sqlalchemy: primary-key columns are NOT NULL by default; otherwise nullable defaults to True
+        eff = c.nullable
+        if want_nullable is False and eff is not False:
+            problems.append('NOT NULL is dropped')
+        if want_nullable is True and eff is not True:
+            problems.append('NULL is rendered as NOT NULL')
+        if want_nullable is None and not pk and eff is not True:
+            problems.append('NOT NULL is invented')
+        if bool(c.primary_key) != bool(src.is_primary_key):
+            problems.append(f'primary key flag {c.primary_key} (written {src.is_primary_key})')
+        if (c.server_default is not None) != (src.default is not None):
+            problems.append('DEFAULT ' + ('invented' if c.server_default is not None else 'dropped'))
+        if problems:
+            rep.failed(oid, 'pysym', f'`{sql}`: ' + '; '.join(problems), function=FN3, clause=clause,
+                       replay={'input': sql, 'dialect': 'mindsdb', 'fires': True, 'observed': ' '.join(text_of(sql, 'sqlite').split()), 'expected': col})
+        else:
+            rep.proved(oid, 'pysym', f'nullable={eff}, pk={c.primary_key}, default={"yes" if c.server_default is not None else "no"}', function=FN3, clause=clause)
+    for lim, off in itertools.product((0, 1, 5), (None, 0, 2)):
+        sql = f'SELECT a FROM t ORDER BY a LIMIT {lim}' + (f' OFFSET {off}' if off is not None else '')
+        oid = f'C06.limit.l{lim}.o{"none" if off is None else off}'
+        clause = 'LIMIT n / OFFSET m are rendered with their values for every n, m >= 0 (LIMIT 0 returns no row)'
+        try:
+            r, stmt, q = stmt_of(sql)
+            gl = stmt._limit
+            go = stmt._offset
+        except Exception as e:
+            if isinstance(e, (NotImplementedError, SQLAlchemyError)):
+                rep.proved(oid, 'pysym', f'refused ({type(e).__name__})', function=FN, clause=clause)
+            else:
+                rep.failed(oid, 'pysym', f'{type(e).__name__}: {e}'[:150], function=FN, clause=clause, replay=replay_exec(sql))
+            continue
+        if gl != lim or (go or None) != (off or None) and go != off:
+            rep.failed(oid, 'pysym', f'`{sql}` is rendered with LIMIT {gl} OFFSET {go}', function=FN, clause=clause, replay=replay_exec(sql))
+        else:
+            rep.proved(oid, 'pysym', f'LIMIT {gl} OFFSET {go}', function=FN, clause=clause)
+
+
 DML_EXEC = [
     'UPDATE t SET b = 0 WHERE a = 2', 'UPDATE t SET b = 0, c = \'k\' WHERE a = 2 AND id > 2', 'UPDATE t SET b = b + 1', 'UPDATE t SET b = a WHERE c IS NULL',
     'DELETE FROM t WHERE a = 2', 'DELETE FROM t WHERE a = 2 OR b IS NULL', 'DELETE FROM t', 'DELETE FROM t WHERE id IN (SELECT id FROM u)',
@@ -531,7 +592,7 @@ EXEC_QUERIES = [
     'select a, count(*) from t group by a having count(*) > 1', 'select id, a from t where a = 2 or b > 2', 'select id from t where not a = 2', 'select id from t where a in (1, 2) and b is not null',
     'select id from t where b between 1 and 3', 'select id, a + b * 2, a - b - 1, (a + b) * 2 from t', "select id, case when a = 1 then 'one' when a = 2 then 'two' else 'other' end from t",
     'select id, sum(b) over (partition by a order by id) from t', 'select id, sum(b) over (partition by a order by b nulls last, id) from t',
-    'select a from t limit 2 offset 1', 'select x.a from (select a from t where a > 1) as x', 'with w as (select a from t) select a from w', 'select id from t where a in (select a from u)',
+    'select a from t limit 2 offset 1', 'select a from t order by a limit 0', 'select id from t where a in (select a from u order by a limit 0)', 'select x.a from (select a from t order by a limit 1 offset 1) as x', 'select x.a from (select a from t where a > 1) as x', 'with w as (select a from t) select a from w', 'select id from t where a in (select a from u)',
     'select id from t where a = NULL', 'select id from t where a <> NULL', 'select id from t where not a = NULL', 'select id from t where NULL = a', 'select a.id from a join b on a.b = NULL',
     "select id, c || 'z' from t", 'select id from t where c like \'x%\'', 'select cast(a as varchar) from t', 'select - a, a % 2 from t where a is not null',
 ]
@@ -601,6 +662,7 @@ def check(rep, tier):
     order_obligations(rep)
     list_obligations(rep)
     dml_obligations(rep)
+    ddl_limit_obligations(rep)
     setop_obligations(rep)
     operator_obligations(rep)
     bounded(rep, tier)
